@@ -321,7 +321,9 @@ class FunctionParser(BaseParser):
         self.return_type = self.parse_annotation(
             annotation=self.return_annotation
         )
+        self.generate_generator_types()
 
+    def generate_generator_types(self):
         # https://docs.python.org/3/library/typing.html#typing.Generator
         if self.return_type and isinstance(self.return_type, type) and issubclass(self.return_type, Rule):
             if self.is_generator:
@@ -517,6 +519,9 @@ class FunctionParser(BaseParser):
                 self.position_type, r = resolve_forward_type(self.position_type)
             if self.return_type:
                 self.return_type, r = resolve_forward_type(self.return_type)
+                if r:
+                    # -> 'Iterator[P]' (the whole annotation a string): the yield / send / return types are known only now
+                    self.generate_generator_types()
 
     def wrap(
         self,
